@@ -191,6 +191,7 @@ def rows(vc):
                  "- so a step's rows are committed all together or not at all (given the transaction contract of the database)")
 def session(vc):
     from sqlalchemy.exc import SQLAlchemyError
+    BIG = ["r1", "r2", "r3"] + [f"row{i}" for i in range(20000)]  # a step with many rows is still ONE unit of work
 
     def run(fail):
         """returns (calls on the session, exception type that escaped or None)"""
@@ -224,7 +225,7 @@ def session(vc):
             scope = contextlib.contextmanager(vc.fn(DI + "DataInterface._getSessionScope"))
             vc.stub(DI + "DataInterface._getSessionScope", scope)
             vc.stub(DI + "@format_exc", lambda: "tb")
-            vc.stub(DI + "@isinstance", lambda o, t: True if o in ("r1", "r2", "r3") else isinstance(o, t))
+            vc.stub(DI + "@isinstance", lambda o, t: True if (isinstance(o, str) and o.startswith("r")) else isinstance(o, t))
             db = vc.new(DI + "DataInterface", session_factory=factory, logger=_NS(error=lambda *a: None), VALID_DATA_TYPES={})
             save, insert = db.bulkSave, db.insertData
         else:
@@ -234,7 +235,7 @@ def session(vc):
             save = db.bulkSave
             insert = None
         out = []
-        for f, args in ((save, (["r1", "r2", "r3"],)), (insert, ("r1", "r2"))):
+        for f, args in ((save, (BIG,)), (insert, ("r1", "r2"))):
             if f is None:
                 continue
             del calls[:]
@@ -246,7 +247,7 @@ def session(vc):
             out.append((list(calls), esc, len(made)))
         return out
     ok_success = all(c == [(k, rows_), "commit", "close"] and esc is None
-                     for (c, esc, _), (k, rows_) in zip(run(None), (("bulk", ["r1", "r2", "r3"]), ("add_all", ["r1", "r2"]))))
+                     for (c, esc, _), (k, rows_) in zip(run(None), (("bulk", BIG), ("add_all", ["r1", "r2"]))))
     vc.ensure("O-C09-session.commit-on-success", ok_success)
     ok_fail = True
     for exc in (SQLAlchemyError, KeyError):
